@@ -86,6 +86,18 @@ CHECKS = {
               "separates < from <=. Trace_Duration: random records up to 5000 samples re-evaluated by TLC + relation events."),
         design_ref="DESIGN.md section 4, C10",
         note=LEVEL_NOTE_N + "; ties within 1e-12 of a boundary accepted on either side off the lattice; shift law for trapezoid-based measures on records starting at zero"),
+    "C09": dict(
+        engine="Intensity",
+        technique="TLA+ one-sample-per-step machine for the six cumulative measures + windowed definition of standardised CAV; TLC exhaustive on a lattice straddling the 0.025 g gate with the implementation in lock-step; TLC trace validation and relation events",
+        category="model_checking",
+        text=("MC_Intensity: every record over {-1,-1/4,0,1/8,1/4,1} m/s2 to length 6 (quick) / 7 (thorough), dt = 1/2: machine = declarative "
+              "definitions (Twin), Monotone, SignInvariant, Scale, ZeroPadInvariant, CavDp bounds and gate; in every state the final values "
+              "of calc_arias_intensity, calc_cav, calc_isv, calc_integral_of_abs_acceleration/velocity, calc_unit_kinetic_energy and the "
+              "calc_cav_dp series (length, monotone, window sums within one panel per window, range, gate) are compared with the model. "
+              "Trace_Intensity: random records (float, int, list) up to 5000 samples validated at every sample; standardised CAV on 13 "
+              "time steps with spikes on window boundaries and values exactly at the gate; sign / scale / zero-padding relation events."),
+        design_ref="DESIGN.md section 4, C09",
+        note=LEVEL_NOTE_N + "; standardised CAV only for dt with 1/dt integral in binary64 and records >= 2 s"),
 }
 
 NOT_YET = {}
